@@ -878,13 +878,14 @@ fn gen_project(rng: &mut Rng) -> ProjSpec {
     let nmods = rng.range(1, 6) as usize;
     let nrefs = rng.below(5) as usize;
     let mut mods: Vec<ModSpec> = vec![];
+    let ascii_names = rng.chance(1, 2); // ASCII stream names: the composed model (projfile) applies
     while mods.len() < nmods {
-        let name = cp_string(cp, rng.range(1, 10) as usize, false, rng);
+        let name = cp_string(cp, rng.range(1, 10) as usize, ascii_names, rng);
         if mods.iter().any(|m| m.name.1 == name.1) || name.1.encode_utf16().count() > 31 {
             continue;
         }
         // stream name: usually the module name; sometimes different
-        let stream = if rng.chance(1, 4) { cp_string(cp, rng.range(1, 10) as usize, false, rng) } else { name.clone() };
+        let stream = if rng.chance(1, 4) { cp_string(cp, rng.range(1, 10) as usize, ascii_names, rng) } else { name.clone() };
         if mods.iter().any(|m| m.stream.1 == stream.1) || stream.1 == "dir" {
             continue;
         }
@@ -1219,6 +1220,15 @@ fn run_project_spec(cx: &mut Ctx, p: &ProjSpec, label: &str, rng: &mut Rng) {
     cx.rep.case(&format!("{label} cp={} mods={} refs={} size={}", p.cp, p.mods.len(), p.refs.len(), file.len()), true);
     if imp != model {
         cx.rep.fail("impl_vs_model", label, &input, &imp, &model, &expect_proj);
+    }
+    // the composed model (C13 reader model, then this one) on the whole file, for ASCII stream names
+    if p.mods.iter().all(|m| m.stream.0.is_ascii()) && file.len() <= 200_000 {
+        let reply = cx.drv.ask(&format!("projfile {}", hex(&file)));
+        let whole = canon_model_project(&reply).unwrap_or_else(|e| e);
+        cx.rep.count("project:composed-model(projfile)");
+        if class_of(&whole) != class_of(&imp) || (!imp.starts_with("err") && whole != imp) {
+            cx.rep.fail("impl_vs_model", &format!("{label}-composed-model"), &input, &imp, &whole, &expect_proj);
+        }
     }
     if label == "project-fault" {
         // malformed project: outcome classes only (C06: Err, never a panic)
@@ -1557,6 +1567,21 @@ fn main() {
         rep.bulk(65536, 53, "codepage sweep: XlsEncoding::from_codepage(cp).is_ok() == (cp in model table), all u16");
         if !bad.is_empty() {
             rep.fail("impl_vs_model", "codepage-table", &format!("{bad:?}"), "", &reply, "");
+        }
+        // and the encoding object selected for every id (`encodingOf`, theorem `get_module_text`)
+        let encs = drv.ask("encs");
+        let table: std::collections::HashMap<u32, String> =
+            encs.split(',').filter_map(|kv| kv.split_once('=')).filter_map(|(k, v)| k.parse().ok().map(|k| (k, v.to_string()))).collect();
+        let mut bad = vec![];
+        for cp in 0..=65535u32 {
+            let imp = XlsEncoding::from_codepage(cp as u16).ok().map(|e| calamine::verif_hooks::cfb::encoding_name(&e).to_string());
+            if imp != table.get(&cp).cloned() {
+                bad.push(format!("{cp}:{imp:?}:{:?}", table.get(&cp)));
+            }
+        }
+        rep.bulk(65536, 53, "encoding selection sweep: name of XlsEncoding::from_codepage(cp) == model encodingOf cp, all u16");
+        if !bad.is_empty() {
+            rep.fail("impl_vs_model", "encoding-table", &bad.join(" "), "", &encs, "");
         }
     }
 
